@@ -3,7 +3,7 @@
 //! f(x) = sum_{(b, v)} v * prod_i (b_i x_i + (1 - b_i)(1 - x_i)), which is the definition restricted to the support.
 //! Size-dependent code paths (the batching window of `fix_variables` grows with log2 of the entry count) are reached.
 use ark_ff::PrimeField;
-use ark_poly::{MultilinearExtension, Polynomial, SparseMultilinearExtension};
+use ark_poly::{DenseMultilinearExtension, MultilinearExtension, Polynomial, SparseMultilinearExtension};
 use std::collections::BTreeMap;
 use vh_core::engine::{Obs, Tape, R};
 use vh_core::ensure;
@@ -82,5 +82,115 @@ pub fn sparse_large_rel<F: PrimeField>(t: &mut Tape<'_>, o: &mut Obs) -> R {
         }
     }
     ensure!(fixed.evaluate(&x[k..].to_vec()) == want, "large.fix.evaluate", "fix_variables({}) then evaluate differs ({} variables, {} entries)", k, nv, ev.len());
+    // relabel: exchange the variable windows [a, a+w) and [b, b+w): the stored map must be the image of the stored map
+    let (a, b, w) = window(t, nv);
+    let rel = s.relabel(a, b, w);
+    let image: BTreeMap<usize, F> = ev.iter().map(|(i, v)| (swap_window(*i, a, b, w), *v)).collect();
+    let both = ev.iter().filter(|(i, _)| swap_window(*i, a, b, w) != *i && entries.contains_key(&swap_window(*i, a, b, w))).count();
+    o.class_if(both > 0 && ev.len() > 1024, "relabel-large-with-index-and-image-stored");
+    ensure!(rel.num_vars == nv, "large.relabel.arity", "relabel({}, {}, {}) of {} variables has arity {}", a, b, w, nv, rel.num_vars);
+    let got: BTreeMap<usize, F> = rel.evaluations.iter().filter(|(_, v)| !v.is_zero()).map(|(i, v)| (*i, *v)).collect();
+    ensure!(
+        got == image,
+        "large.relabel.map",
+        "relabel({}, {}, {}) of {} variables with {} stored entries: {} entries afterwards, expected {}",
+        a,
+        b,
+        w,
+        nv,
+        ev.len(),
+        got.len(),
+        image.len()
+    );
+    Ok(())
+}
+
+/// exchange bits [a, a+w) and [b, b+w) of an index
+fn swap_window(i: usize, a: usize, b: usize, w: usize) -> usize {
+    let m = (1usize << w) - 1;
+    let (x, y) = ((i >> a) & m, (i >> b) & m);
+    (i & !(m << a) & !(m << b)) | (y << a) | (x << b)
+}
+
+/// two disjoint windows of width w inside nv variables (either order, w >= 1) — or, rarely, the documented no-op a == b
+fn window(t: &mut Tape<'_>, nv: usize) -> (usize, usize, usize) {
+    let w = 1 + t.below((nv / 2) as u64) as usize;
+    let lo = t.below((nv - 2 * w + 1) as u64) as usize;
+    let hi = lo + w + t.below((nv - 2 * w - lo + 1) as u64) as usize;
+    match t.below(8) {
+        0 => (lo, lo, w),
+        1..=3 => (hi, lo, w),
+        _ => (lo, hi, w),
+    }
+}
+
+/// Large dense tables (10..=18 variables): fix_variables with short and long partial points, relabel and evaluate
+/// against the definition computed from the table.
+pub fn dense_large_rel<F: PrimeField>(t: &mut Tape<'_>, o: &mut Obs) -> R {
+    let nv = match t.weighted(&[1, 3]) {
+        0 => t.range(10, 15) as usize,
+        _ => t.range(15, 18) as usize,
+    };
+    let seed = t.u64();
+    let sparse_zeros = t.chance(1, 4);
+    let table: Vec<F> = (0..1u64 << nv)
+        .map(|i| {
+            let h = mix(seed ^ i.wrapping_mul(0x2545f4914f6cdd1d));
+            if sparse_zeros && h % 3 != 0 {
+                F::zero()
+            } else {
+                F::from(h)
+            }
+        })
+        .collect();
+    let d = DenseMultilinearExtension::<F>::from_evaluations_vec(nv, table.clone());
+    let dim = match t.weighted(&[5, 1, 2]) {
+        0 => t.range(0, 6) as usize,
+        1 => nv,
+        _ => t.range(0, nv as u64) as usize,
+    };
+    let x: Vec<F> = (0..nv)
+        .map(|_| match t.below(6) {
+            0 => F::zero(),
+            1 => F::one(),
+            _ => F::from(t.u64()) + F::from(2u64),
+        })
+        .collect();
+    o.show(|| format!("dense MLE: {} variables, fix the first {} variables", nv, dim));
+    o.nt(true);
+    o.class_if(nv >= 16, "nv>=16");
+    o.class_if(nv >= 16 && (1..=4).contains(&dim), "nv>=16,short-partial-point");
+    o.class_if(dim == nv, "full-point");
+    // weights of the low `dim` variables, built by doubling: eq[low] = prod_i (low_i x_i + (1 - low_i)(1 - x_i))
+    let mut eq = vec![F::one()];
+    for r in &x[..dim] {
+        let mut next = vec![F::zero(); eq.len() * 2];
+        for (low, wv) in eq.iter().enumerate() {
+            next[low] = *wv * (F::one() - r);
+            next[low + eq.len()] = *wv * r;
+        }
+        eq = next;
+    }
+    let want_tab: Vec<F> = (0..1usize << (nv - dim)).map(|j| (0..1usize << dim).map(|low| table[(j << dim) | low] * eq[low]).sum()).collect();
+    let fixed = d.fix_variables(&x[..dim]);
+    ensure!(fixed.num_vars == nv - dim, "dense-large.fix.arity", "fix_variables({}) of {} variables has arity {}", dim, nv, fixed.num_vars);
+    ensure!(fixed.evaluations.len() == want_tab.len(), "dense-large.fix.len", "fix_variables({}) of {} variables has {} entries", dim, nv, fixed.evaluations.len());
+    if let Some(j) = (0..want_tab.len()).find(|j| fixed.evaluations[*j] != want_tab[*j]) {
+        return vh_core::fail("dense-large.fix.table", format!("fix_variables({}) of {} variables: entry {} differs from sum_low table[j*2^dim + low] * eq(low, point)", dim, nv, j));
+    }
+    // the full evaluation through the restricted table
+    let mut rest = want_tab;
+    for r in &x[dim..] {
+        let half = rest.len() / 2;
+        rest = (0..half).map(|j| rest[2 * j] + (rest[2 * j + 1] - rest[2 * j]) * r).collect();
+    }
+    ensure!(d.evaluate(&x) == rest[0], "dense-large.evaluate", "evaluate of {} variables differs from the definition", nv);
+    // relabel
+    let (a, b, w) = window(t, nv);
+    let rel = d.relabel(a, b, w);
+    ensure!(rel.num_vars == nv && rel.evaluations.len() == table.len(), "dense-large.relabel.arity", "relabel({}, {}, {}) of {} variables", a, b, w, nv);
+    if let Some(i) = (0..table.len()).find(|i| rel.evaluations[swap_window(*i, a, b, w)] != table[*i]) {
+        return vh_core::fail("dense-large.relabel.table", format!("relabel({}, {}, {}) of {} variables: entry {} did not move to {}", a, b, w, nv, i, swap_window(i, a, b, w)));
+    }
     Ok(())
 }
